@@ -131,8 +131,9 @@ type structCrashCfg struct {
 	Prop    string
 	MaxPts  int
 	Fsck    FsckOpts
-	After   func(s *Srv, state *Model) error
+	After   func(s *Srv, state *Model, cr *CrashRun) error
 	AfterIf func(rep *FsckReport, h uint64) bool
+	OnlyCat string // if set, only fsck problems of this category count
 }
 
 func structCrashProperty(t *rapid.T, sc structCrashCfg) {
@@ -243,6 +244,15 @@ func structCrashProperty(t *rapid.T, sc structCrashCfg) {
 		opts := ImageOpts{NoPrefixOracle: true, Fsck: func(s *Srv) (*FsckReport, error) {
 			r := Fsck(s.N.VerifFsState(), sc.Fsck)
 			rep0 = r
+			if sc.OnlyCat != "" {
+				var keep []string
+				for _, p := range r.Problems {
+					if len(p) >= len(sc.OnlyCat) && p[:len(sc.OnlyCat)] == sc.OnlyCat {
+						keep = append(keep, p)
+					}
+				}
+				r.Problems = keep
+			}
 			return r, r.Err()
 		}}
 		if sc.After != nil {
@@ -250,8 +260,8 @@ func structCrashProperty(t *rapid.T, sc structCrashCfg) {
 				if sc.AfterIf != nil && !sc.AfterIf(rep0, h) {
 					return nil
 				}
-				St.Class("recovered_images_emptied_and_counted")
-				return sc.After(s, state)
+				St.Class("recovered_images_with_followup_check")
+				return sc.After(s, state, cr)
 			}
 		}
 		_, rep, err := cr.CheckImage(img, c.K, opts)
